@@ -28,8 +28,8 @@ INFO = {
                    "x/norm. FINDING (recorded): exp calls the truthiness-based default filter on x*x for numeric operands, "
                    "which raises for array-valued coefficients. NOT decided: the numerical power-series identities, the "
                    "Study-number formula assembled as text in codegen_sqrt, domains.",
-    "decided": ["C19.outerexp", "C19.outertrig", "C19.exp-branches", "C19.no-truthiness", "C19.norm", "C07.pow"],
-    "not_decided": ["sqrt formula text in codegen_sqrt", "floating-point accuracy and domain boundaries",
+    "decided": ["C19.outerexp", "C19.outertrig", "C19.sqrt", "C19.exp-branches", "C19.no-truthiness", "C19.norm", "C07.pow"],
+    "not_decided": ["that the Study-number formula is a square root numerically (only its structure c, 1/(2c), <a^2-(bI)^2> is compared)", "floating-point accuracy and domain boundaries",
                     "that the selected scalar functions satisfy the power-series identities (trusted numpy/sympy)"],
     "assumptions": ["outer product of blades is the table sign between disjoint blades (C01, C03)"],
 }
@@ -219,6 +219,79 @@ def outertrig(ctx):
         else:
             ctx.violation(c, "outertan is not outersin / outercos (numerator must be the odd part, denominator the even "
                              f"part of the outer exponential): numerator blades {sorted(num)}, denominator blades {sorted(den)}", fn)
+
+
+# --------------------------------------------------------------------------- sqrt of a Study number
+@rule("C19.sqrt", props=["C19"], min_instances=2, mutants=[
+    ("Study norm from x * ~x", ("codegen", "        normS = (a * a - bI * bI).e", "        normS = (x * ~x).e")),
+    ("half-angle factor dropped", ("codegen", "        cp = f'(0.5 * ({str(a.e)} + {str(normS)}**0.5)) ** 0.5'", "        cp = f'(({str(a.e)} + {str(normS)}**0.5)) ** 0.5'")),
+    ("non-scalar part scaled by c instead of 1/(2c)", ("codegen", "    dI = bI * c2_inv", "    dI = bI * c")),
+])
+def sqrt_rule(ctx):
+    """codegen_sqrt of a Study number a + bI emits c = sqrt((a + sqrt(a^2 - (bI)^2))/2), result c + bI/(2c);
+    a scalar gives its plain square root (template extraction; the formula text itself is compared structurally)."""
+    from ..symenv import tree_interp
+    repo = ctx.repo
+    q = "codegen.codegen_sqrt"
+    fn = ctx.func(q)
+    x = T.var("x")
+    # scalar cell
+    it = tree_interp(repo, 3)
+    it.tvar_facts = {"grades": {"x": (0,)}}
+    it.t_truth = lambda t: bool(t.terms)
+    c = f"{q}#scalar"
+    try:
+        out = it.run(q, [x])
+    except NoValue as exc:
+        raise Unknown(c, str(exc), fn)
+    xe = T.scalar(("coef", x.key(), "e"))
+    want = f"(<<{xe!r}>>**0.5)"
+    if out[0] == "return" and isinstance(out[1], dict) and list(out[1]) == [0] and str(out[1][0]).replace(" ", "") == want.replace(" ", ""):
+        ctx.ok(c, fn)
+    elif out[0] == "return" and isinstance(out[1], dict):
+        ctx.violation(c, f"sqrt of a scalar emits {out[1]}, expected {{0: '{want}'}}", fn)
+    else:
+        raise Unknown(c, f"sqrt of a scalar gives {out!r}", fn)
+    # Study-number cell
+    it = tree_interp(repo, 3)
+    it.tvar_facts = {"grades": {"x": (0, 2)}}
+    it.t_truth = lambda t: bool(t.terms)
+    c = f"{q}#study-number"
+    try:
+        out = it.run(q, [x])
+    except NoValue as exc:
+        raise Unknown(c, str(exc), fn)
+    res = out[1] if out[0] == "return" else None
+    if not (isinstance(res, Obj) and res.kind == "LambdifyInput"):
+        raise Unknown(c, f"returns {out!r}", fn)
+    a = T.opaque("grade", (x, 0))
+    bI = x.sub(a)
+    A = T.scalar(("coef", a.key(), "e"))
+    N = T.scalar(("coef", a.gp(a).sub(bI.gp(bI)).key(), "e"))
+    cp = f"(0.5 * (<<{A!r}>> + <<{N!r}>>**0.5)) ** 0.5"
+    csym, c2 = T.scalar(("sym", "c")), T.scalar(("sym", "c2_inv"))
+    want_deps = [(repr(csym), cp), (repr(c2), f"0.5 / {cp}")]
+    deps = res.attrs.get("dependencies")
+    problems = []
+    try:
+        got_deps = [(repr(l), str(r)) for l, r in deps]
+    except Exception:
+        raise Unknown(c, f"dependencies {deps!r}", fn)
+    norm = lambda t: t.replace(" ", "")
+    if [(l, norm(r)) for l, r in got_deps] != [(l, norm(r)) for l, r in want_deps]:
+        problems.append(f"precomputed scalars are {got_deps}, expected c = sqrt((a + sqrt(<a*a - bI*bI>))/2) and c2_inv = 0.5/c: {want_deps}")
+    ed = res.attrs.get("expr_dict")
+    want_res = csym.add(bI.gp(c2))
+    got_res = None
+    if isinstance(ed, dict) and len(ed) == 1:
+        v = list(ed.values())[0]
+        got_res = v.attrs.get("of") if isinstance(v, Obj) else None
+    if got_res != want_res:
+        problems.append(f"the result is [{got_res!r}], expected c + bI * c2_inv = [{want_res!r}]")
+    if problems:
+        ctx.violation(c, "; ".join(problems), fn)
+    else:
+        ctx.ok(c, fn, c=cp)
 
 
 # --------------------------------------------------------------------------- exp branches
